@@ -343,7 +343,7 @@ theorem isOk_bind_right {α β} (x : Res α) (f : α → Res β) (h : ∀ a, isO
 theorem isOk_widen {α} (t : ATag) (xs : List Val) (fs : List (Val → Res Val)) (extra : List Cat) (r : Res α) :
     isOk (widen t xs fs extra r) = isOk r := by
   cases r <;> simp only [widen] <;> try rfl
-  split <;> rfl
+  split <;> (try split) <;> rfl
 
 theorem Agree.bind {α β} (x : Res α) {f g : α → Res β} (h : ∀ a, Agree (f a) (g a)) : Agree (x >>= f) (x >>= g) := by
   cases x
@@ -615,7 +615,7 @@ theorem widen_bind_ok {α β} (t : ATag) (xs : List Val) (fs : List (Val → Res
     (g : α → β) :
     widen t xs fs extra (r >>= fun x => Res.ok (g x)) = (widen t xs fs extra r >>= fun x => Res.ok (g x)) := by
   cases r <;> simp only [Res.ok_bind, Res.err_bind, Res.panic_bind, Res.nondet_bind, Res.unmodelled_bind, widen]
-  split <;> rfl
+  split <;> (try split) <;> rfl
 
 theorem mapPrune_eq_mapAll (f : Val → Res Val) (xs : List Val) :
     mapPrune f xs = (mapAll f xs >>= fun r => Res.ok (r.filter (fun x => !x.isNull))) := by
